@@ -157,6 +157,9 @@ def oracle(seq, out) -> str | None:
                     ok = q in named or (k == "rmdir" and op[2] == 1 and q.startswith(op[1] + "/"))
                     if not ok:
                         return f"operation-changed-unnamed-path:{k}"
+        if k == "write" and res == "ok" and op[2] == "-" and changed:
+            # an empty write leaves every byte (and the length) of every file as it was
+            return "empty-write-changed-tree"
         if k == "write" and res == "ok" and op[2] != "-":
             # read-back identity and frame, from the snapshots
             from trace import parse_fs
